@@ -635,7 +635,10 @@ impl OpGen<'_> {
                 match name.as_str() {
                     "Int" => format!("{}", rng_variant.below(200) as i64 - 100),
                     "Float" => {
-                        if rng_variant.chance(1, 3) {
+                        if rng_variant.chance(1, 6) {
+                            // integer literals beyond 32 bits are fine for Float, ID and custom scalars
+                            format!("{}", 3_000_000_000u64 + rng_variant.below(1000))
+                        } else if rng_variant.chance(1, 3) {
                             format!("{}", rng_variant.below(10))
                         } else {
                             format!("{}.5", rng_variant.below(10))
@@ -644,14 +647,16 @@ impl OpGen<'_> {
                     "String" => format!("\"s{}\"", rng_variant.below(4)),
                     "Boolean" => rng_variant.chance(1, 2).to_string(),
                     "ID" => {
-                        if rng_variant.chance(1, 2) {
+                        if rng_variant.chance(1, 6) {
+                            format!("{}", 12_345_678_901u64 + rng_variant.below(1000))
+                        } else if rng_variant.chance(1, 2) {
                             format!("{}", rng_variant.below(50))
                         } else {
                             format!("\"id{}\"", rng_variant.below(4))
                         }
                     }
                     "Color" => (*rng_variant.pick(&["RED", "GREEN", "BLUE"])).to_string(),
-                    "Blob" => (*rng_variant.pick(&["1", "\"x\"", "{a: 1, b: [true]}", "[1, 2]"]))
+                    "Blob" => (*rng_variant.pick(&["1", "\"x\"", "{a: 1, b: [true]}", "[1, 2]", "9999999999", "{big: 123456789012, e: RED}"]))
                         .to_string(),
                     "Filter" => {
                         let inp = self.g.inputs[0].clone();
@@ -925,7 +930,7 @@ pub fn gen_request_for(rng: &mut Rng, g: &GSchema) -> Request {
     for v in &var_decls {
         match og.rng.below(20) {
             0 => {} // omitted
-            1 => {
+            1 | 5 => {
                 vars.insert(v.name.to_string(), J::Null);
             }
             2..=4 if v.decl.contains('=') => {} // omitted: default applies
